@@ -74,6 +74,28 @@ var c17Callers = []c17Caller{
 	{"admin-of-other-appchain", fix.KB},
 	{"node-account", fix.NodeKeys[0]},
 	{"governance-admin", fix.AdminKeys[1]}, // only used against internal entry points
+	// accounts that carry a governance-admin role record but are NOT available admins
+	// (only meaningful in the "former-admins" pre-state)
+	{"frozen-governance-admin", fix.AdminKeys[3]},
+	{"rejected-admin-candidate", fix.Key("c17-candidate")},
+}
+
+// prFormerAdmins: admin 3 frozen by an approved proposal; a candidate's admin
+// registration submitted and withdrawn (its role record stays behind, not available).
+func prFormerAdmins() *preWorld {
+	w := fix.BaseWorld(fix.Options{})
+	cand := fix.Key("c17-candidate")
+	w.Must(w.Block(fix.Transfer(fix.AdminKeys[0], w.N.Next(fix.AdminKeys[0]), fix.Addr(cand), "1000000000000000000")))
+	res := w.Must(w.Block(w.InvokeTx(fix.AdminKeys[0], constant.RoleContractAddr, "FreezeRole", pb.String(fix.Addr(fix.AdminKeys[3]).String()), pb.String("r"))))
+	id := fix.ProposalID(res.Receipts[0])
+	for i := 0; i < 3; i++ {
+		w.Block(w.VoteTx(i, id, "approve"))
+	}
+	res = w.Must(w.Block(w.InvokeTx(fix.AdminKeys[1], constant.RoleContractAddr, "RegisterRole", pb.String(fix.Addr(cand).String()), pb.String("governanceAdmin"), pb.String(""), pb.String("r"))))
+	w.Must(w.Block(w.InvokeTx(fix.AdminKeys[1], constant.GovernanceContractAddr, "WithdrawProposal", pb.String(fix.ProposalID(res.Receipts[0])), pb.String("r"))))
+	// an open proposal the former admins might try to vote on
+	res = w.Must(w.Block(w.RegisterAppchainTx(fix.KC, fix.ChainC, "0x00000000000000000000000000000000000000a2", nil, "ETH")))
+	return &preWorld{w: w, proposal: fix.ProposalID(res.Receipts[0])}
 }
 
 func c17Strings(pw *preWorld) []string {
@@ -147,7 +169,7 @@ type c17Case struct {
 func c17Cases(tier string) []c17Case {
 	var out []c17Case
 	ms := c17Methods()
-	nps, nvec := 2, 6
+	nps, nvec := 3, 6
 	if tier == "thorough" {
 		nps, nvec = len(c17PreStates), c17Vectors
 	}
@@ -156,6 +178,10 @@ func c17Cases(tier string) []c17Case {
 			internal := c17Internal(ms[m].contract, ms[m].method) || isStubMethod(ms[m].method)
 			for ci := range c17Callers {
 				if c17Callers[ci].name == "governance-admin" && !internal {
+					continue
+				}
+				former := c17Callers[ci].name == "frozen-governance-admin" || c17Callers[ci].name == "rejected-admin-candidate"
+				if former != (c17PreStates[ps].name == "former-admins") {
 					continue
 				}
 				if tier != "thorough" && c17Callers[ci].name == "node-account" {
@@ -173,7 +199,7 @@ func c17Cases(tier string) []c17Case {
 	return out
 }
 
-var c17PreStates = []preState{preStates[3], preStates[2], preStates[1], preStates[5]} // open-ibtp, open-proposal, base-audit, open-ibtp-audit
+var c17PreStates = []preState{preStates[3], preStates[2], {"former-admins", prFormerAdmins}, preStates[1], preStates[5]} // open-ibtp, open-proposal, former-admins, base-audit, open-ibtp-audit
 
 var stubMethods = map[string]bool{"Add": true, "AddObject": true, "Callee": true, "Caller": true, "CrossInvoke": true, "CrossInvokeEVM": true, "CurrentCaller": true,
 	"Delete": true, "EnableAudit": true, "GetAccount": true, "GetCurrentHeight": true, "GetObject": true, "GetTxHash": true, "GetTxIndex": true,
